@@ -352,8 +352,15 @@ impl DateFilter for ds::MonthdayRange {
         let in_month = Month::from_date(date);
 
         match self {
-            ds::MonthdayRange::Month { year, range } => {
-                year.unwrap_or(in_year) == in_year && range.wrapping_contains(&in_month)
+            ds::MonthdayRange::Month { year: None, range } => range.wrapping_contains(&in_month),
+            ds::MonthdayRange::Month { year: Some(year), range } => {
+                if range.start() <= range.end() {
+                    *year == in_year && range.contains(&in_month)
+                } else {
+                    // A wrapping range ends on the following year
+                    (*year == in_year && in_month >= *range.start())
+                        || (*year + 1 == in_year && in_month <= *range.end())
+                }
             }
             ds::MonthdayRange::Date {
                 start: (start, start_offset),
